@@ -211,11 +211,31 @@ def r4_relay_buffers(chk):
             if any(re.search(rx, fn) and nm == name for rx, nm, _, _, _ in RELAY_BUFFERS):
                 continue
             ew = [v for (k1, k2), v in RELAY_ELSEWHERE.items() if k1 in fn and k2 == name]
-            key = "%s|%s is a reviewed relay buffer" % (short(path), name)
+            key = "%s|%s is a bounded relay buffer" % (short(path), name)
             if ew:
                 r.ok(cfg, key, fn, ew[0])
+                continue
+            # a buffer nobody reviewed yet: accept it when one of the generic proofs goes through
+            body = prog.bodies[path]
+            B = _buffer_local(body, name)
+            proof = None
+            if B is not None:
+                on_b = lambda c: c.args and _ref_root(body, c.args[0]) == B
+                pushes = [c for c in body.calls if c.name in ("push_back", "push", "extend", "push_front", "append") and on_b(c)]
+                bounded = 0
+                for c in pushes:
+                    for g in body.guards(c.blk):
+                        if g.atom[0] == "cmp" and g.atom[1] in ("Lt", "Le", "Gt", "Ge"):
+                            pv = body.provenance(g.atom[2]) + " " + body.provenance(g.atom[3])
+                            if re.search(r"\blen\(%s\)" % re.escape(name), pv):
+                                bounded += 1
+                                break
+                if pushes and bounded == len(pushes):
+                    proof = "every push is guarded by a comparison of %s.len()" % name
+            if proof:
+                r.ok(cfg, key, fn, proof)
             else:
-                r.bad(cfg, key, fn, "a relay loop fills the message buffer `%s` and nothing in the reviewed table bounds it" % name)
+                r.bad(cfg, key, fn, "a relay loop fills the message buffer `%s`; it is not in the reviewed table and no push is bounded by a comparison of its length" % name)
         for rx, name, fetch_rx, kind, why in RELAY_BUFFERS:
             for body in prog.find_bodies(rx):
                 key = "%s|%s empty before %s" % (short(body.path), name, fetch_rx.split("::")[-1].rstrip("$").strip("()"))
